@@ -3,6 +3,8 @@
 package cert
 
 import (
+	"sync"
+	"bytes"
 	"crypto/tls"
 	"encoding/json"
 	"encoding/pem"
@@ -26,7 +28,7 @@ import (
 
 func TestVerifC11SchedIssue(t *testing.T) {
 	L := ev.Begin("C11", "c11-issue", "model_checking",
-		"controlled scheduler over VaultPKISource.Issue + cert.TLSConfig + Store (mutex, go statement and channel operations of Issue rewritten; Vault answered by an in-process fake of pki/issue): 2-3 handshake threads ask a strict listener for different names the store does not hold, each makes the source issue a certificate and publish the set of everything issued so far, the store's goroutine applies what arrives; every interleaving up to the preemption bound. oracle at quiescence: every name a handshake got a certificate for is answered from the store without a further issue request (the most recently produced set holds them all), with the certificate issued for it; plus (free-running) a role whose certificates live 30 minutes, less than the minimal refresh time of one hour: at most 3 issue requests in the 1.5s after the first issue (no spinning)")
+		"controlled scheduler over VaultPKISource.Issue + cert.TLSConfig + Store (mutex, go statement and channel operations of Issue rewritten; Vault answered by an in-process fake of pki/issue): 2-3 handshake threads ask a strict listener for different names the store does not hold, each makes the source issue a certificate and publish the set of everything issued so far, the store's goroutine applies what arrives; every interleaving up to the preemption bound. oracle at quiescence: every name a handshake got a certificate for is answered from the store without a further issue request (the most recently produced set holds them all), with the certificate issued for it; a renewal scenario (a handshake has picked the certificate of a name, the source issues that name again): the picked certificate's chain and key stay what they were; plus (free-running) a role whose certificates live 30 minutes, less than the minimal refresh time of one hour: at most 3 issue requests in the 1.5s after the first issue (no spinning)")
 	names := []string{"a.example", "b.example", "c.example"}
 	type kp struct{ certPEM, keyPEM string }
 	issued := map[string]kp{}
@@ -48,6 +50,28 @@ func TestVerifC11SchedIssue(t *testing.T) {
 		}
 		issued[n] = kp{string(cp), string(kpm)}
 	}
+	// a name that is issued more than once (renewal) gets another certificate and key each time
+	var renewMu sync.Mutex
+	renewN := 0
+	var renewals []kp
+	for k := 0; k < 3; k++ {
+		c := c11MakeValid(fmt.Sprintf("issued-renew.example#%d", k), "renew.example", time.Now().Add(-time.Hour), time.Now().Add(90*24*time.Hour), "renew.example")
+		var cp, kpm []byte
+		rest := c.pem
+		for {
+			var b *pem.Block
+			b, rest = pem.Decode(rest)
+			if b == nil {
+				break
+			}
+			if b.Type == "CERTIFICATE" {
+				cp = pem.EncodeToMemory(b)
+			} else {
+				kpm = pem.EncodeToMemory(b)
+			}
+		}
+		renewals = append(renewals, kp{string(cp), string(kpm)})
+	}
 	var requests int64
 	srv := httptest.NewServer(http.HandlerFunc(func(w http.ResponseWriter, r *http.Request) {
 		if r.URL.Path != "/v1/pki/issue/fabio" {
@@ -60,6 +84,12 @@ func TestVerifC11SchedIssue(t *testing.T) {
 		b, _ := io.ReadAll(r.Body)
 		json.Unmarshal(b, &in)
 		k, ok := issued[in.CommonName]
+		if in.CommonName == "renew.example" {
+			renewMu.Lock()
+			k, ok = renewals[renewN%len(renewals)], true
+			renewN++
+			renewMu.Unlock()
+		}
 		if !ok {
 			http.Error(w, `{"errors":["unknown common name"]}`, 400)
 			return
@@ -165,6 +195,67 @@ func TestVerifC11SchedIssue(t *testing.T) {
 	}
 	si, sn := ev.Shard()
 	deadline := ev.Deadline(120, 1200)
+	// renewal: the certificate a handshake has picked stays what it was while the source issues the name again
+	{
+		renewBody := func(x *vsched.X) {
+			renewMu.Lock()
+			renewN = 0
+			renewMu.Unlock()
+			src := NewVaultPKISource()
+			src.Client = &vaultClient{client: client}
+			src.CertPath = "pki/issue/fabio"
+			cfg, err := TLSConfig(src, true, 0, 0, nil)
+			if err != nil {
+				panic("VERIF-INFRA: " + err.Error())
+			}
+			hello := &tls.ClientHelloInfo{ServerName: "renew.example"}
+			var pickedP atomic.Pointer[tls.Certificate] // shared between harness threads (free-running pass)
+			var leafAtPick []byte
+			var keyAtPick interface{}
+			x.Go("first-handshake-then-another", func() {
+				if _, err := cfg.GetCertificate(hello); err != nil { // issues #0
+					panic("VERIF-INFRA: " + err.Error())
+				}
+				// the store's goroutine has taken the published set (it may or may not have applied it yet: both orders are explored)
+				vsched.BlockUntil("published-set-taken", func() bool { return len(src.certsCh) == 0 })
+				c, _ := cfg.GetCertificate(hello)
+				if c != nil {
+					leafAtPick, keyAtPick = append([]byte{}, c.Certificate[0]...), c.PrivateKey
+					pickedP.Store(c)
+				}
+				vsched.PointL("between-certificate-and-signature")
+			})
+			x.Go("renewal", func() {
+				vsched.BlockUntil("picked", func() bool { return pickedP.Load() != nil })
+				src.Issue("renew.example") // #1
+			})
+			x.Run()
+			picked := pickedP.Load()
+			if picked == nil {
+				x.Fail("handshake-not-answered-with-the-issued-certificate", "renew.example")
+				return
+			}
+			if !bytes.Equal(picked.Certificate[0], leafAtPick) || picked.PrivateKey != keyAtPick {
+				x.Fail("picked-certificate-changed-under-the-handshake", map[string]interface{}{"leaf_at_pick": c11Leaf(&tls.Certificate{Certificate: [][]byte{leafAtPick}}), "leaf_now": c11Leaf(picked)})
+			}
+		}
+		st := vsched.Explore(vsched.Options{Name: "renewal", Bound: 2, Shard: si, Shards: sn, AllowDeadlock: true, Deadline: time.Now().Add(40 * time.Second),
+			OnFail: func(sig string, detail interface{}, choices []int, trace []int) {
+				L.Violation(sig+"/issue", map[string]interface{}{"scenario": "renewal", "schedule": choices, "detail": detail})
+			}}, renewBody)
+		if st.Infra != "" {
+			panic("VERIF-INFRA: " + st.Infra)
+		}
+		if st.Capped != "" {
+			L.Cap("renewal: " + st.Capped)
+		}
+		L.AddCases(st.Executions)
+		L.AddStates(st.Points + st.Executions)
+		L.AddTransitions(st.Points + st.Executions)
+		L.AddTraces(st.Executions)
+		L.NontrivialKey("renewal")
+		L.Sample(map[string]interface{}{"scenario": "renewal", "executions": st.Executions, "bound": st.BoundCompleted})
+	}
 	scs := []struct {
 		name       string
 		n, b, deep int
